@@ -4,6 +4,7 @@ mod arith;
 mod brain;
 mod comp;
 mod conv;
+mod espec;
 mod formula;
 mod peak;
 mod poisson;
@@ -23,6 +24,7 @@ fn main() {
         "arith" => arith::run(&rest),
         "brain" => brain::run(&rest),
         "conv" => conv::run(&rest),
+        "espec" => espec::run(&rest),
         "formula" => formula::run(&rest),
         "poisson" => poisson::run(&rest),
         _ => {
